@@ -93,7 +93,14 @@ pub enum EFocus {
 
 pub fn gen(rng: &mut Rng, focus: EFocus) -> E2eScn {
     let depth = rng.range(1, 3) as usize;
-    let subscriber = if focus == EFocus::Deadlines && rng.chance(250) { 2 } else { 0 };
+    let subscriber = if focus == EFocus::Deadlines && rng.chance(250) {
+        2
+    } else if focus == EFocus::Trace && rng.chance(300) {
+        // a log-only (formatting) subscriber: spans enabled but not backed by OpenTelemetry
+        1
+    } else {
+        0
+    };
     let mut hops = Vec::new();
     for _ in 0..depth {
         let link = match rng.below(6) {
